@@ -196,7 +196,13 @@ func calculateLineCharges(charges []*LineCharge, quantity, sum, total num.Amount
 			if c.Quantity != nil {
 				q = *c.Quantity
 			}
-			c.Amount = c.Rate.Multiply(q)
+			// keep the decimals of the product, up to the accuracy used for the
+			// line sum, instead of rounding to those the rate was written with
+			exp := c.Rate.Exp() + q.Exp()
+			if max := cd.Subunits + linePrecisionExtra; exp > max {
+				exp = max
+			}
+			c.Amount = tax.ApplyRoundingRule(rr, cur, c.Rate.RescaleUp(exp).Multiply(q))
 		}
 		c.Amount = cd.RescaleUp(c.Amount)
 		total = total.Add(c.Amount)
